@@ -36,6 +36,7 @@ Tpl(t, pos) ==
     [] t = 17 -> St(pos, <<>>, Nuc0(".orig", 16384, 0, 0, 0))                 \* x4000
     [] t = 18 -> St(pos, <<>>, Nuc0(".orig", 12290, 0, 0, 0))                 \* x3002: touches a two-word block at x3000
     [] t = 19 -> St(pos, <<>>, Nuc0(".orig", 20480, 0, 0, 0))                 \* x5000
+    [] t = 20 -> St(pos, <<>>, Nuc0(".orig", 0, 0, 0, 0))                     \* x0000: a label here coincides with an .external of its name
 
 ProgOf(ts) == [k \in 1..Len(ts) |-> Tpl(ts[k], k)]
 SrcOf(ts)  == [i \in 1..(10 * Len(ts)) |-> IF i % 10 = 0 THEN 10 ELSE 65]
